@@ -101,6 +101,18 @@ func newSizes() []int {
 }
 
 func init() {
+	// CSV fields made of the new letters
+	for _, a := range newAtoms(4) {
+		ok := true
+		for _, r := range a {
+			if r > 0xfffe {
+				ok = false
+			}
+		}
+		if ok {
+			c09Fields = append(c09Fields, a, "x"+a+"y")
+		}
+	}
 	// the size lists of the pumped families grow by the sizes next to new integer constants
 	for _, n := range newSizes() {
 		has := func(xs []int) bool {
